@@ -109,10 +109,19 @@ rc::Gen<uint8_t> byteGen() {
     return rc::gen::map(rc::gen::resize(100, rc::gen::inRange<int>(0, 256)), [](int v) { return (uint8_t)v; });
 }
 
+// Program length.  Decoders read fixed fields first and optional / later-added ones from the tail (a missing byte
+// decodes as 0), so a length that merely scales with the size parameter leaves the tail fields at their defaults
+// most of the time (measured: second-submitter / re-submission flags of the pool scenario set in < 5 % of cases).
+// Therefore a fixed share of the programs has the full length: 2/3 for the short fixed-layout decoders
+// (maxlen <= 32), 1/3 for the long operation-list decoders (histories of every length stay well represented).
 rc::Gen<std::vector<uint8_t>> progGen(unsigned maxlen) {
     return rc::gen::withSize([=](int size) {
         int sz = std::max(1, (int)(maxlen * (unsigned)std::min(size + 5, 100) / 100));
-        return rc::gen::resize(sz, rc::gen::container<std::vector<uint8_t>>(byteGen()));
+        return rc::gen::mapcat(rc::gen::resize(100, rc::gen::inRange<int>(0, 3)), [=](int k) {
+            bool full = maxlen <= 32 ? k != 0 : k == 0;
+            if (full) return rc::gen::container<std::vector<uint8_t>>((std::size_t)maxlen, byteGen());
+            return rc::gen::resize(sz, rc::gen::container<std::vector<uint8_t>>(byteGen()));
+        });
     });
 }
 
